@@ -139,6 +139,9 @@ def build(name, env, cfg):
 
             return call, mods
         qt = nnx.clone(q)
+        if cfg.get("global_step"):
+            # a resumed call continues with the target of the earlier call, which in general differs from the online network
+            _scale_params(qt, 0.5)
         mods["q_target"] = qt
         fn = {
             "nature_dqn": ("rl_blox.algorithm.nature_dqn", "train_nature_dqn"),
